@@ -78,7 +78,9 @@ theorem addPending_mem (k : List Name) (f : Factor α) :
     the plated executable refinement: in every iteration the executable loop runs, the selected leaf is a
     current key of maximal size (hypothesis `leafmax` of `Run.CompStep`), and the components it processes
     are a partition of that key's factors no two of which share a leaf variable (hypotheses `hpend`,
-    `closed`).  Missing: the VALUE half for `leaf ≠ []` (see Props/C09.lean). -/
+    `closed`).  The VALUE half for `leaf ≠ []` is in Props/C09/Plated.lean: per-primitive simulation lemmas and
+    `iteration_preserves_unroll_partial` (the executable `elim_core`, any number of plates left), with the
+    three remaining links to `unroll` named there. -/
 theorem psp_loop_refines_plated_spec_partial (c : Cfg) (st : St α) (leaf : List Name)
     (hl : chooseLeaf st.pending = some leaf) :
     leaf ∈ st.pending.map (·.1) ∧ (∀ kf ∈ st.pending, kf.1.length ≤ leaf.length) ∧
